@@ -100,6 +100,23 @@ type ArgLists struct {
 	LO []AllOpt
 }
 
+// Tree is an input object that refers to itself (through a list of pointers and through a
+// pointer), with fields declared before and after the self-references.
+type Tree struct {
+	Name string
+	Kids []*Tree
+	Next *Tree
+	Tag  *string
+	Req  int32
+	Opt  int64 `graphql:",optional"`
+}
+
+type ArgTree struct {
+	Root   Tree
+	Forest []Tree
+	PRoot  *Tree
+}
+
 var sink struct {
 	mu    sync.Mutex
 	calls []interface{}
@@ -120,6 +137,7 @@ func init() {
 	q.FieldFunc("scalars", func(a ArgScalars) bool { record(a); return true })
 	q.FieldFunc("ptrs", func(ctx context.Context, a ArgPtrs) bool { record(a); return true })
 	q.FieldFunc("lists", func(a ArgLists) (bool, error) { record(a); return true, nil })
+	q.FieldFunc("tree", func(a ArgTree) bool { record(a); return true })
 	schema = s.MustBuild()
 }
 
@@ -305,6 +323,18 @@ func genFor(t *rapid.T, typ reflect.Type, depth int, allowVar bool, allowNull bo
 			if sf.Type.Kind() == reflect.Ptr && rapid.IntRange(0, 2).Draw(t, "omitnested") == 0 {
 				continue // stays nil
 			}
+			if isOptional(sf) && rapid.IntRange(0, 2).Draw(t, "omitoptional") == 0 && typ == treeType {
+				continue // stays zero
+			}
+			if typ == treeType && depth >= 3 && (sf.Type == reflect.PtrTo(treeType) || sf.Type == reflect.SliceOf(reflect.PtrTo(treeType))) {
+				// the self-reference ends here: no child, an empty list of children
+				if sf.Type.Kind() == reflect.Slice {
+					gv.Field(i).Set(reflect.MakeSlice(sf.Type, 0, 0))
+					v.Keys = append(v.Keys, name)
+					v.Items = append(v.Items, Val{Kind: "list"})
+				}
+				continue
+			}
 			ev, fv := genFor(t, sf.Type, depth+1, allowVar, allowNull)
 			gv.Field(i).Set(ev)
 			v.Keys = append(v.Keys, name)
@@ -336,7 +366,9 @@ func isOptional(sf reflect.StructField) bool {
 	return sf.Type.Kind() == reflect.Ptr || strings.Contains(sf.Tag.Get("graphql"), "optional")
 }
 
-var structs = map[string]reflect.Type{"scalars": reflect.TypeOf(ArgScalars{}), "ptrs": reflect.TypeOf(ArgPtrs{}), "lists": reflect.TypeOf(ArgLists{})}
+var structs = map[string]reflect.Type{"scalars": reflect.TypeOf(ArgScalars{}), "ptrs": reflect.TypeOf(ArgPtrs{}), "lists": reflect.TypeOf(ArgLists{}), "tree": reflect.TypeOf(ArgTree{})}
+
+var treeType = reflect.TypeOf(Tree{})
 
 type built struct {
 	c        Case
@@ -347,7 +379,7 @@ var varCounter int
 
 func genCase(t *rapid.T, forceTransport string) built {
 	varCounter = 0
-	name := rapid.SampledFrom([]string{"scalars", "ptrs", "lists"}).Draw(t, "struct")
+	name := rapid.SampledFrom([]string{"scalars", "ptrs", "lists", "tree"}).Draw(t, "struct")
 	typ := structs[name]
 	exp := reflect.New(typ).Elem()
 	c := Case{Struct: name}
